@@ -10,10 +10,10 @@ import (
 
 func init() {
 	register(&propCheck{
-		id:    "C05",
-		level: "other",
-		explanation: "Static necessary conditions of 'cancelling a subprocess terminates its process tree, promptly' — the facts in the source without which no tree kill can work: (P1) every exec.Cmd created in package subprocess is given its own process group before it is used, and the OS-specific attribute really asks for one (Setpgid / CREATE_NEW_PROCESS_GROUP), per GOOS in the thorough tier; (P2) from Stop and from CleanKillOfCommand the call graph reaches the group kill, and the tree-kill keeps its final unconditional Kill; (P3) the cancellation path does not need a lock that is held for the child's whole lifetime: if the lock held around exec.Cmd.Run/Wait is one that the stop callback of the monitor must take, there must be a lock-free kill path — exec.Cmd.Cancel set to a function from which the group kill is reachable; (P4) isRunning is reset on every exit after it was set, in Execute and in stop; (P5) Stop kills the process tree in its own flow before it waits for the child (a kill that merely races with Wait finds nothing once Wait has reaped a leader that had already exited); (P7) along CleanKillOfCommand / Stop → KillWithChildren → killProcessAndChildren → killGroup every path to a return passes the next link, error exits and nil guards aside; (P6) the monitor goroutine calls the stop callback after the process context ended and always clears its flag; Execute always cancels the monitoring on exit. Decided on SSA with a must-lockset and CHA call graph; no process is started. Not decided: that signals arrive, descendants that left the group, wall-clock bounds, orphans.",
-		run:   runC05,
+		id:              "C05",
+		level:           "other",
+		explanation:     "Static necessary conditions of 'cancelling a subprocess terminates its process tree, promptly' — the facts in the source without which no tree kill can work: (P1) every exec.Cmd created in package subprocess is given its own process group before it is used, and the OS-specific attribute really asks for one (Setpgid / CREATE_NEW_PROCESS_GROUP), per GOOS in the thorough tier; (P2) from Stop and from CleanKillOfCommand the call graph reaches the group kill, and the tree-kill keeps its final unconditional Kill; (P3) the cancellation path does not need a lock that is held for the child's whole lifetime: if the lock held around exec.Cmd.Run/Wait is one that the stop callback of the monitor must take, there must be a lock-free kill path — exec.Cmd.Cancel set to a function from which the group kill is reachable; (P4) isRunning is reset on every exit after it was set, in Execute and in stop; (P5) Stop kills the process tree in its own flow before it waits for the child (a kill that merely races with Wait finds nothing once Wait has reaped a leader that had already exited); (P7) along CleanKillOfCommand / Stop → KillWithChildren → killProcessAndChildren → killGroup every path to a return passes the next link, error exits and nil guards aside; (P6) the monitor goroutine calls the stop callback after the process context ended and always clears its flag; Execute always cancels the monitoring on exit. Decided on SSA with a must-lockset and CHA call graph; no process is started. Not decided: that signals arrive, descendants that left the group, wall-clock bounds, orphans.",
+		run:             runC05,
 		thoroughConfigs: []string{"darwin/amd64", "windows/amd64"},
 		assumptions: []string{
 			"SIGKILL to the process group terminates every member; pipes held only by group members are then closed so exec.Cmd.Wait returns",
